@@ -227,10 +227,21 @@ impl Literal {
                 false
             }
             (Literal::Range(min, max, num_ty), Type::Array(elem_ty, size)) => {
+                // the elements are encoded with the number type of the range; its (never negative)
+                // elements have the same bits in the signed type of the same width:
+                let ty_max = match (elem_ty.as_ref(), num_ty) {
+                    (Type::Unsigned(ty), num_ty) if ty == num_ty => num_ty.max(),
+                    (Type::Signed(ty @ SignedNumType::I8), UnsignedNumType::U8)
+                    | (Type::Signed(ty @ SignedNumType::I16), UnsignedNumType::U16)
+                    | (Type::Signed(ty @ SignedNumType::I32), UnsignedNumType::U32)
+                    | (Type::Signed(ty @ SignedNumType::I64), UnsignedNumType::U64) => {
+                        ty.max().map(|ty_max| ty_max as u64)
+                    }
+                    _ => return false,
+                };
                 // the last element must be representable, `as_bits` only keeps the low bits
-                elem_ty.as_ref() == &Type::Unsigned(*num_ty)
-                    && max.checked_sub(*min) == Some(*size as u64)
-                    && num_ty.max().is_none_or(|ty_max| max.saturating_sub(1) <= ty_max)
+                max.checked_sub(*min) == Some(*size as u64)
+                    && ty_max.is_none_or(|ty_max| max.saturating_sub(1) <= ty_max)
             }
             _ => false,
         }
